@@ -16,7 +16,8 @@ NEXT = ("next",)
 
 
 class LoopSpec:
-    def __init__(self, invariant=(), modifies=None, unroll=None, note="", elem=None):
+    def __init__(self, invariant=(), modifies=None, unroll=None, note="", elem=None, fresh_boxes=False):
+        self.fresh_boxes = fresh_boxes   # containers allocated since function entry may change freely; older ones are framed
         self.elem = elem             # element type of the list built by an effectful comprehension
         self.invariant = list(invariant)
         self.modifies = modifies     # None: havoc whole heap; else list of 'Class.field' / '$alloc'
@@ -554,7 +555,9 @@ class StmtMixin:
         if z3.is_int_value(c) and c.as_long() <= 4 and spec is None:
             return self.unroll_for(p, s, [seq.at(z3.IntVal(i)) for i in range(c.as_long())])
         if spec is None:
-            spec = LoopSpec()
+            # lenient mode (effect obligations): the default loop frame is "only containers created since function entry
+            # change"; it is CHECKED at the end of the body (loop-frame obligations), not assumed
+            spec = LoopSpec(modifies=[], fresh_boxes=True) if self.lenient else LoopSpec()
             self.note_default_loop(p, s)
         return self.run_loop(p, s, spec, k, kind="for", seq=seq, itv=itv)
 
@@ -722,6 +725,8 @@ class StmtMixin:
             elif cur is not None and isinstance(cur, VTup):
                 raise Unsupported(f"loop-carried tuple {name} with untyped parts")
         self.havoc_for_spec(p, spec.modifies)
+        if getattr(spec, "fresh_boxes", False):
+            self.havoc_fresh_boxes(p)
         havoc_heap = dict(p.heap)
         if kind == "for":
             kv = VInt(z3.Int(fresh_name(f"k{ordinal}")))
@@ -810,6 +815,23 @@ class StmtMixin:
         else:
             self.havoc_heap(p, self.expand_modifies(modifies))
 
+    def _entry_alloc(self, p):
+        heap, epoch = p.old_heaps[0] if p.old_heaps else (p.heap, p.epoch)
+        return self.alloc_arr(p, heap, epoch)
+
+    def havoc_fresh_boxes(self, p):
+        """Contents of list/dict/set objects: arbitrary for objects allocated since function entry, unchanged for older ones."""
+        ea = self._entry_alloc(p)
+        for key in list(p.heap.keys()):
+            if key == self.ALLOC or key[1] != "$v":
+                continue
+            ty = self.classes[key[0]].fields["$v"]
+            old = p.heap[key]
+            new = self._arrays_for(key, ty, fresh_name("hvb"))
+            r = z3.Const(fresh_name("rb"), Ref)
+            p.assume(z3.ForAll([r], z3.Implies(z3.Select(ea, r), z3.And([z3.Select(a, r) == z3.Select(b, r) for a, b in zip(new, old)]))))
+            p.heap[key] = new
+
     def check_loop_frame(self, p, spec, havoc_heap, L):
         """Fields outside the declared loop frame must be left unchanged by the body."""
         if spec.modifies is None:
@@ -817,6 +839,15 @@ class StmtMixin:
         allowed = set(self.expand_modifies(spec.modifies))
         for key, arrs in p.heap.items():
             if key in allowed:
+                continue
+            if getattr(spec, "fresh_boxes", False) and key != self.ALLOC and key[1] == "$v":
+                before = havoc_heap.get(key) or self.init_heap.get((p.epoch, key))
+                if before is None or all(a.eq(b) for a, b in zip(arrs, before)):
+                    continue
+                ea = self._entry_alloc(p)
+                r = z3.Const(fresh_name("rb"), Ref)
+                self.oblige(p, z3.ForAll([r], z3.Implies(z3.Select(ea, r), z3.And([z3.Select(a, r) == z3.Select(b, r) for a, b in zip(arrs, before)]))),
+                            "loop-frame", f"{L}:{key[0]}.{key[1]}[pre-existing containers]")
                 continue
             before = havoc_heap.get(key)
             if before is None:
